@@ -289,3 +289,42 @@ _run0 = run
 def run(ctx, rep, tier):
     _run0(ctx, rep, tier)
     _shared(ctx, rep, tier)
+
+
+# ---------------------------------------------------------------------------------------------------------------- C14.h
+def _destination_typing(ctx, rep, tier):
+    """C14.h: the destination of an assignment constrains the type of the expression's *result*. Operators whose operands have the result's
+    type (arithmetic, bitwise, shifts, && ||) hand the destination on; a comparison's operands have types of their own and must be
+    rendered without it - otherwise every comparison assigned to a bool is refused."""
+    import ast
+    from ..dispatch import isinstance_chain
+    model = ctx.model
+    rep.rule("C14.h", "destination typing: checked against the result of each (sub)expression; handed on to operands by the type-preserving operators, not by comparisons")
+    q = "CodegenCtx._generate_code_for_int_expr"
+    fn = model.func(q)
+    arms, _ = isinstance_chain(fn.body, "intexpr")
+    seen = 0
+    for classes, body in arms:
+        calls = [c for st in body for c in ast.walk(st) if isinstance(c, ast.Call) and ast.unparse(c.func) == "self._generate_code_for_int_expr"]
+        if not calls:
+            continue
+        seen += 1
+        passes = [len(c.args) >= 3 and ast.unparse(c.args[2]) == "out_expr" or any(k.arg == "out_expr" for k in c.keywords) for c in calls]
+        if "CompareIntegerExpr" in classes:
+            rep.check(not any(passes), "C14.h", q, "comparison: operands rendered without the destination", "the operands of a comparison are type-checked against the destination of the whole expression: "
+                      "`b = [x < y];` (bool output, integer operands) is refused")
+        elif set(classes) & {"SumIntegerExpr", "MulIntegerExpr", "BitwiseIntegerExpr", "BitShiftIntegerExpr", "ConjunctionIntegerExpr", "DisjunctionIntegerExpr"}:
+            rep.check(all(passes), "C14.h", q, f"{'/'.join(classes)}: operands inherit the destination", f"{classes}: an operand is rendered without the destination although it has the result's type (type errors in operands go unnoticed)")
+    if seen < 5:
+        raise AnalysisError(f"C14.h: only {seen} recursive arms found in _generate_code_for_int_expr")
+    top = [st for st in strip_doc(fn.body) if isinstance(st, ast.If) and ast.unparse(st.test) == "out_expr is not None"]
+    rep.check(len(top) == 1 and "intexpr.result_type() != out_expr.type" in ast.unparse(top[0]) and any(isinstance(x, ast.Raise) for x in ast.walk(top[0])), "C14.h", q,
+              "the result type of every rendered (sub)expression with a destination is compared with it (diagnosed error)", "destination type check changed")
+
+
+_run_h14 = run
+
+
+def run(ctx, rep, tier):
+    _run_h14(ctx, rep, tier)
+    _destination_typing(ctx, rep, tier)
